@@ -33,14 +33,15 @@ func (World) Assumptions(prop string) []string {
 		"no PeerBlock miniblocks and no meta block with nonce 0 are generated (the repository documents that it ignores both)",
 		"notarization fields are asserted only when (a) the miniblock has a record on disk and the notarizing meta block was delivered, (b) an OnNotarizedBlocks call happened at or after the later of the two (bounded progress: pending notifications are consumed only inside OnNotarizedBlocks), (c) no Restart fell between the delivery and that call (pending notifications are memory-only), (d) no later record of the miniblock in a DIFFERENT block (or the same block after a Restart emptied the dedup cache) rewrote the metadata; case (d) is only counted (probe notarization_wiped_by_rerecord) because the statement does not say whether a notification consumed by a dropped block's record must carry over",
 		"a notarization field that is set must equal a (meta nonce, meta hash) pair that was delivered for that miniblock and side",
-		"put_error relaxation, per miniblock of the failed RecordBlock only: its lookups may fail or name any block that was recorded with that transaction, until a lookup of a transaction that must name it shows the latest record again; a later record of the same block may or may not be skipped by the dedup cache (both accepted); fault-free arm decides separately",
+		"put_error in RecordBlock hits exactly ONE write (the n-th write of the call on one disk; the harness watches the writes at the disk seam and attributes the failed one by its key). Narrow relaxation: the header's epoch entry failed -> every miniblock of that block may be missing; a miniblock's own epoch entry or metadata write failed -> only that miniblock may be missing (its lookups may fail or name any block recorded with that transaction); a transaction's index entry failed -> only that transaction may keep an older entry; results-hashes write failed -> nothing is relaxed. Miniblocks of the block whose own writes all succeeded ARE recorded, whatever failed before them",
+		"the relaxation ends with the next fault-free record that contains the miniblock / transaction (or earlier, when a lookup shows the latest record): after a fault-free record of block X, repeated or not, every miniblock of X must name X. Justification from the unchanged code: the dedup mark is removed before the writes and set only after the metadata write succeeded, so a held mark implies written metadata, and every record re-writes the transaction index",
 		"put_error during OnNotarizedBlocks: every write of patched metadata fails for the duration of ONE call (not a single n-th write: the order in which one call applies several pending notifications follows Go map iteration and would not replay); the repository keeps such notifications pending, so after the next fault-free OnNotarizedBlocks call they must be reported (unless a Restart fell in between)",
 		"dedup cache (1000 entries) never evicts inside a run (at most 4 miniblocks x few epochs)",
 	}
 }
 
 func (World) Rule(prop string) string {
-	return "2-4 miniblocks (1-3 tx hashes each; intra-shard, outgoing, incoming, to-meta, from-meta), in half of the runs 1-2 further miniblocks that re-pack transactions of another one (one more tx / one tx swapped / only the first tx); 2-6 shard blocks over 1-3 heights and 1-3 epochs with competing blocks sharing miniblocks or holding the re-packed version (same epoch and across epochs), 1-4 meta blocks (some competing) whose shard data name the miniblocks at source/destination plus unknown and irrelevant miniblocks; 6-45 steps record(block) | notify(meta) | notify() | restart in random order with re-records (fork flips back) and duplicate notifications; arm faults: 1-2 steps with a put_error: a record step (n-th write on one of the four disks) or a notify step (all metadata writes of that call), followed by a fault-free notify. After every step every tx of every recorded miniblock is looked up. non-trivial = a miniblock was recorded in two different blocks and at least one lookup was asserted; distinct = hash of full plan; states = (tx, header hash, notarization nonces) tuples"
+	return "2-4 miniblocks (1-3 tx hashes each; intra-shard, outgoing, incoming, to-meta, from-meta), in half of the runs 1-2 further miniblocks that re-pack transactions of another one (one more tx / one tx swapped / only the first tx); 2-6 shard blocks over 1-3 heights and 1-3 epochs with competing blocks sharing miniblocks or holding the re-packed version (same epoch and across epochs), 1-4 meta blocks (some competing) whose shard data name the miniblocks at source/destination plus unknown and irrelevant miniblocks; 6-45 steps record(block) | notify(meta) | notify() | restart in random order with re-records (fork flips back) and duplicate notifications; arm faults: 1-2 steps with a put_error: a record step (exactly the n-th write of the call on one of the four disks, n 0-5) or a notify step (all metadata writes of that call), followed by a fault-free notify. After every step every tx of every recorded miniblock is looked up. non-trivial = a miniblock was recorded in two different blocks and at least one lookup was asserted; distinct = hash of full plan; states = (tx, header hash, notarization nonces) tuples"
 }
 
 func (World) Budget(prop, tier string) int {
